@@ -83,7 +83,11 @@ def ev_call(ex, n, st, spec, b):
             a_ = boolify(E(n.args[0]))
             if z3.is_false(z3.simplify(a_)):
                 return z3.BoolVal(True)
-            return z3.Implies(a_, boolify(_guarded(ex, n.args[1], st, spec, b, a_)))
+            try:
+                return z3.Implies(a_, boolify(_guarded(ex, n.args[1], st, spec, b, a_)))
+            except SpecNoneDeref:
+                # the consequent speaks about a field of something that is None on this path: it cannot hold there
+                return z3.Not(a_)
         if name == "ite":
             return merge_val(boolify(E(n.args[0])), E(n.args[1]), E(n.args[2]))
         if name == "old":
